@@ -566,6 +566,22 @@ pub fn c10_case(seed: u64, case: u64, prof: &Profile, dense: bool) -> CaseResult
         junk.push((format!("{}.pack", sha(b"[{\"other\":true}]")), files[pk].clone()));
         junk.push((format!("1-{}.delta", sha(&files[pk])), files[pk].clone()));
     }
+    // structurally wrong blocks stored under the correct hash of their bytes (a junk file may be
+    // named anything): both the library and the reference model must reject them
+    for body in [
+        &b"{\"k\":[1]}"[..],
+        b"{\"k\":\"x\"}",
+        b"{\"p\":\"x\"}",
+        b"{\"p\":[5]}",
+        b"{\"p\":[\"zz\"]}",
+        b"{\"c\":[[1,2]]}",
+        b"{\"c\":[[\"u\"]]}",
+        b"{\"i\":5}",
+        b"[]",
+        b"{\"c\":[[\"u\",\"1-nothex\",\"d\"]]}",
+    ] {
+        junk.push((format!("1-{}.delta", sha(body)), body.to_vec()));
+    }
     for (jn, jc) in junk {
         if jn.len() < 2 {
             continue;
